@@ -121,8 +121,14 @@ def report_error(err, use_stack=True):
                                   "msg": str(getattr(err, "message_only", ""))[:300]})
 Errors.report_error = report_error
 
+def repatch():
+    # modules that did `from .Errors import report_error` hold the original function
+    for name, mod in list(sys.modules.items()):
+        if name.startswith("Cython.") and getattr(mod, "report_error", None) is _orig_report:
+            mod.report_error = report_error
+
 def compile_one(item):
-    name = "m%d" % item["id"]
+    name = "m%d" % item["id"] if item["id"] >= 0 else "warmup"
     ext = "." + item.get("kind", "py")
     d = os.path.join(wd, name + "_d")
     os.makedirs(d, exist_ok=True)
@@ -184,6 +190,14 @@ def compile_one(item):
     return rec
 
 work = json.load(open(workfile))
+# warm-up: the first compilation imports most of the compiler and loads the utility code (seconds; much more on a
+# loaded machine); it must not be charged to the first text's time limit
+_saved = per_text_timeout
+per_text_timeout = 0
+compile_one({"id": -1, "b64": base64.b64encode(b"def f(x):\n    return [x for x in (1, 'a')]\n").decode(), "kind": "py"})
+per_text_timeout = _saved
+from Cython.Compiler import ExprNodes, MatchCaseNodes, Nodes, ModuleNode, Optimize, FlowControl
+repatch()
 with open(outfile, "a") as out:
     for item in work:
         rec = compile_one(item)
